@@ -17,6 +17,8 @@
 (* lenient (any name for "in", any punctuation for "=", junk between the      *)
 (* blocks of an embed body) this parser follows the language for "in"/"=" and *)
 (* the code for the embed body, which Twig ignores as well.                   *)
+(* Not modelled: the bound of 10000 levels the real parser puts on the nesting of expressions and elseif chains (a longer
+   flat run is a syntax error there); every source of the families is far below it.  C01's flat-run cases exercise it. *)
 EXTENDS Vec, Syntax
 
 LX == INSTANCE Lexer
